@@ -4,7 +4,7 @@
    must coincide.  Each check also evaluates the property monitor on the
    IMPLEMENTATION's outputs.  Result: list of (case index, error code);
    empty = all agree. *)
-From ArgMapper Require Import Base Graph GraphAlg GraphHist.
+From ArgMapper Require Import Base Graph GraphAlg GraphHist GraphStatements.
 Set Implicit Arguments.
 Local Open Scope Z_scope.
 
@@ -149,6 +149,25 @@ Definition c19_monitor (o : hobs) : bool :=
              eqb outs (zsort (map (fun t => snd (fst t)) (filter (fun t => fst (fst t) =? k) (ho_wout o)))) &&
              eqb ins (zsort (map (fun t => snd (fst t)) (filter (fun t => fst (fst t) =? k) (ho_win o))))) (ho_edges o).
 
+(* C19 itself on the implementation's observations: every handle shows
+   exactly what the plain adjacency model of its allocation class holds
+   (GraphStatements.arun, the specification of theorem C19) -- vertices with
+   payloads, weighted successors, and predecessors as the mirror image *)
+Definition wlookup (a b : Z) (l : list (Z * Z * Z)) : option Z :=
+  match find (fun t => (fst (fst t) =? a) && (snd (fst t) =? b)) l with
+  | Some t => Some (snd t) | None => None end.
+Definition c19_spec_ok (ops : list (gop Z Z)) (nkeys : Z) (o : hobs) : bool :=
+  let st := arun ops in
+  let (c, r) := a_handle st (ho_handle o) in
+  let m := a_class st c in
+  let ks := zrange (nkeys + 1) in
+  forallb (fun kp => (0 <=? fst kp) && (fst kp <=? nkeys)) (ho_vertices o) &&
+  forallb (fun k => eqb (lookup k (ho_vertices o)) (mv m k)) ks &&
+  forallb (fun a => forallb (fun b =>
+     let want := if r then me m b a else me m a b in
+     eqb (wlookup a b (ho_wout o)) want && eqb (wlookup b a (ho_win o)) want) ks) ks &&
+  Nat.eqb (length (ho_wout o)) (length (ho_win o)).
+
 Fixpoint hrun_upto (s : hstate Z Z) (ops : list (gop Z Z)) (i : Z) : Z + hstate Z Z :=
   match ops with
   | [] => inr s
@@ -161,6 +180,7 @@ Fixpoint hrun_upto (s : hstate Z Z) (ops : list (gop Z Z)) (i : Z) : Z + hstate 
 Definition check_hist (c : hist_case) : Z :=
   if negb (hc_panic_at c =? -1) then 61 (* the implementation panicked *) else
   if negb (forallb c19_monitor (hc_obs c)) then 60 else
+  if negb (forallb (c19_spec_ok (hc_ops c) (hc_nkeys c)) (hc_obs c)) then 62 else
   match hrun_upto h0 (hc_ops c) 0 with
   | inl i => if hc_panic_at c =? i then 0 else 1
   | inr s =>
